@@ -163,13 +163,19 @@ def check(case, ctx):
             "path": lambda: dict(source=path),
         }
         # a text-mode FILE object in an encoding other than UTF-8: the stream's decoded text is what counts
-        tpath = os.path.join(wd, "doc-%s.utf16.txt" % fmt_name)
-        with open(tpath, "w", encoding="utf-16") as f:
+        tpath = os.path.join(wd, "doc-%s.enc.txt" % fmt_name)
+        try:
+            s_str.encode("cp1252")
+            enc = "cp1252"
+        except UnicodeEncodeError:
+            enc = "utf-16"
+        ctx.count("textfile_encoding:" + enc)
+        with open(tpath, "w", encoding=enc, newline="") as f:
             f.write(s_str)
         opened = []
 
         def _textfile():
-            fh = open(tpath, "r", encoding="utf-16")
+            fh = open(tpath, "r", encoding=enc, newline="")
             opened.append(fh)
             return dict(source=fh)
         sources["textfile"] = _textfile
